@@ -33,7 +33,7 @@ let outcome_str = function
 
 let in_fragment level fd =
   match level with
-  | _ -> func_in_F1 fd
+  | _ -> func_in_F (nat_of_int level) fd
 
 let gen_case oc dir seed level i =
   let rng = Rng.derive seed i in
@@ -50,7 +50,7 @@ let gen_case oc dir seed level i =
   List.iter (fun ins ->
       Printf.fprintf oc "C %d %d %d\n" (int_of_n (n_of_opcode ins.r_op)) (int_of_z ins.r_w0) (int_of_z ins.r_w1)) code;
   let zargs = List.map z_of_int args in
-  Printf.fprintf oc "V %s\n" (vres_str (run_func code O (nat_of_int 200000) zargs));
+  Printf.fprintf oc "V %s\n" (vres_str (run_func code O (nat_of_int 60000) zargs));
   Printf.fprintf oc "E %s\n" (outcome_str (run_program (nat_of_int 4000) prog zargs));
   Printf.fprintf oc "@@END\n"
 
